@@ -880,4 +880,449 @@ theorem tr_bmp_apply (i : Bmp.Info) (st : Settings) (dimx dimy : Int) (d : Dest)
       rw [wrapU64_small hp0 (by omega), wrapU64_small (by omega) (by omega)]
       exact tr_bmp_dispatch i _ st dimx dimy d hi (fun h => by have := hp1 h; omega) (by omega) hdst hr hd
 
+
+/-! ### scanline reader -/
+
+theorem tr_bmp_scanRowsBuf {t : Bool} (i : Bmp.Info) (pitch : Int) (rowFn : Bmp.ScanBufs → M Bmp.ScanBufs) (Inv : Bmp.ScanBufs → Prop)
+    (hfn : ∀ b, Inv b → Tr t (rowFn b) Inv) :
+    ∀ (n : Nat) (pos : Int) (b : Bmp.ScanBufs) (acc : List (List Nat)), Inv b → Tr t (Bmp.scanRowsBuf i pitch rowFn n pos b acc) (fun _ => True)
+  | 0, _, _, _, _ => by unfold Bmp.scanRowsBuf; exact tr_pure trivial
+  | n + 1, pos, b, acc, hb => by
+    unfold Bmp.scanRowsBuf
+    dsimp only
+    apply tr_bind (tr_seekSet _); intro _ _
+    apply tr_bind (hfn b hb); intro b' hb'
+    exact tr_bmp_scanRowsBuf i pitch rowFn Inv hfn n _ b' _ hb'
+
+theorem tr_bmp_scanFinish {t : Bool} (i : Bmp.Info) (pitch sl : Int) (buf0 : List Nat) (rowFn : Bmp.ScanBufs → M Bmp.ScanBufs)
+    (Inv : Bmp.ScanBufs → Prop) (hsl : 1 ≤ sl) (hh : 1 ≤ i.height)
+    (h0 : Inv { dst := List.replicate sl.toNat 0, buf := buf0 }) (hfn : ∀ b, Inv b → Tr t (rowFn b) Inv) :
+    Tr t (Bmp.scanFinish i pitch sl buf0 rowFn) (fun _ => True) := by
+  unfold Bmp.scanFinish
+  apply tr_ite
+  · intro _; exact tr_stop_err _
+  · intro _
+    apply tr_bind (tr_alloc _); intro _ _
+    apply tr_ite
+    · intro hc; have : sl = 0 := by simpa using hc
+      omega
+    · intro _
+      apply tr_ite
+      · intro _; omega
+      · intro _
+        dsimp only
+        apply tr_bind (tr_bmp_scanRowsBuf i pitch rowFn Inv hfn _ _ _ _ h0); intro _ _
+        exact tr_pure trivial
+
+theorem tr_bmp_scanPaletteRow (i : Bmp.Info) (pitch : Int) (pal : Bmp.Palette) (b : Bmp.ScanBufs)
+    (hp : 1 ≤ pitch) (hpal : 256 ≤ pal.length) (hb : RowInv pitch b.buf) :
+    Tr false (Bmp.scanPaletteRow i pitch pal b) (fun b' => RowInv pitch b'.buf) := by
+  unfold Bmp.scanPaletteRow
+  dsimp only
+  apply tr_ite
+  · intro hc; have : pitch = 0 := by simpa using hc
+    omega
+  · intro _
+    apply tr_bind (tr_readInto _ b.buf pitch.toNat (by rw [hb.1])); intro row hrow
+    have hbytes : Bytes (Bmp.manip i.bpp row) := manip_bytes _ (hrow.2 hb.2)
+    apply tr_bind (tr_bmp_lookupAll _ _ pal .rgba8 _ _ [] (fun c hc => by
+      have := rowIndices_lt i.bpp hbytes c (List.mem_of_mem_take hc)
+      omega)); intro px _
+    exact tr_pure ⟨by rw [manip_length, hrow.1]; exact hb.1, hbytes⟩
+
+theorem tr_bmp_scan15Row {t : Bool} (i : Bmp.Info) (pitch : Int) (ms : Bmp.Mask × Bmp.Mask × Bmp.Mask) (b : Bmp.ScanBufs)
+    (hp : 1 ≤ pitch) (hms : MaskOk ms.1 ∧ MaskOk ms.2.1 ∧ MaskOk ms.2.2) (hb : RowInv pitch b.buf) :
+    Tr t (Bmp.scan15Row i pitch ms b) (fun b' => RowInv pitch b'.buf) := by
+  unfold Bmp.scan15Row
+  dsimp only
+  apply tr_ite
+  · intro hc; have : pitch = 0 := by simpa using hc
+    omega
+  · intro _
+    apply tr_bind (tr_readInto _ b.buf pitch.toNat (by rw [hb.1])); intro row hrow
+    apply tr_bind (tr_bmp_row15 _ ms hms _ _ _); intro px _
+    exact tr_pure ⟨by rw [hrow.1]; exact hb.1, hrow.2 hb.2⟩
+
+theorem tr_bmp_scanRawRow {t : Bool} (pitch : Int) (n : Nat) (b : Bmp.ScanBufs) (hn : pitch.toNat ≤ n) (hb : b.dst.length = n) :
+    Tr t (Bmp.scanRawRow pitch b) (fun b' => b'.dst.length = n) := by
+  unfold Bmp.scanRawRow
+  apply tr_ite
+  · intro _; exact tr_pure hb
+  · intro _
+    apply tr_bind (tr_readInto _ b.dst pitch.toNat (by omega)); intro row hrow
+    exact tr_pure (by show row.length = n; omega)
+
+theorem tr_bmp_scanWith (i : Bmp.Info) (pitch : Int) (hi : BmpHdr i) (hp : 1 ≤ i.bpp → 1 ≤ pitch) (hp0 : 0 ≤ pitch)
+    (h24 : i.bpp = 24 → pitch = (i.width * 3 + 3) / 4 * 4) (h32 : i.bpp = 32 → pitch = i.width * 4) :
+    Tr false (Bmp.scanWith i pitch) (fun _ => True) := by
+  unfold Bmp.scanWith
+  have hw1 := hi.w1; have hw2 := hi.w2; have hh := hi.h1
+  have ew : wrapU 64 i.width = i.width := wrapU64_small (by omega) (by omega)
+  have e4 : wrapU 64 (wrapU 64 (wrapU 64 i.width * 4) + 3) / 4 * 4 = (i.width * 4 + 3) / 4 * 4 := by
+    rw [ew, wrapU64_small (x := i.width * 4) (by omega) (by omega), wrapU64_small (x := i.width * 4 + 3) (by omega) (by omega)]
+  have e3 : wrapU 64 (wrapU 64 (wrapU 64 i.width * 3) + 3) / 4 * 4 = (i.width * 3 + 3) / 4 * 4 := by
+    rw [ew, wrapU64_small (x := i.width * 3) (by omega) (by omega), wrapU64_small (x := i.width * 3 + 3) (by omega) (by omega)]
+  dsimp only
+  rw [e4, e3]
+  apply tr_ite
+  · intro hpalc
+    have hb1 : 1 ≤ i.bpp := by
+      rcases hpalc with h | ⟨h | h, _⟩ <;> simp at h <;> omega
+    apply tr_bind (tr_bmp_readPalette i); intro pal hpal
+    apply tr_ite
+    · intro _; exact tr_allocErr
+    · intro _
+      apply tr_bind (tr_alloc _); intro _ _
+      exact tr_bmp_scanFinish i pitch _ _ _ (fun b => RowInv pitch b.buf) (by omega) hh
+        ⟨List.length_replicate, bytes_replicate _⟩ (fun b hb => tr_bmp_scanPaletteRow i pitch pal b (hp hb1) hpal hb)
+  · intro _
+    apply tr_ite
+    · intro _; split <;> exact tr_ioErr
+    · intro _
+      apply tr_ite
+      · intro _; split <;> exact tr_ioErr
+      · intro _
+        apply tr_ite
+        · intro h15
+          have hb1 : 1 ≤ i.bpp := by rcases h15 with h | h <;> simp at h <;> omega
+          apply tr_ite
+          · intro _; exact tr_allocErr
+          · intro _
+            apply tr_bind (tr_alloc _); intro _ _
+            apply tr_bind (tr_bmp_readMasks i); intro ms hms
+            exact tr_bmp_scanFinish i pitch _ _ _ (fun b => RowInv pitch b.buf) (by omega) hh
+              ⟨List.length_replicate, bytes_replicate _⟩ (fun b hb => tr_bmp_scan15Row i pitch ms b (hp hb1) hms hb)
+        · intro _
+          apply tr_ite
+          · intro h2432
+            by_cases hb : i.bpp = 24
+            · have hpe := h24 hb
+              simp only [hb, beq_self_eq_true, if_true]
+              exact tr_bmp_scanFinish i pitch _ _ _ (fun b => b.dst.length = ((i.width * 3 + 3) / 4 * 4).toNat) (by omega) hh
+                List.length_replicate (fun b hb' => tr_bmp_scanRawRow pitch _ b (by rw [hpe]) hb')
+            · have hb32 : i.bpp = 32 := by rcases h2432 with h | h <;> simp at h <;> omega
+              have hpe := h32 hb32
+              simp only [hb32, show ((32 : Int) == 24) = false from rfl, Bool.false_eq_true, if_false]
+              exact tr_bmp_scanFinish i pitch _ _ _ (fun b => b.dst.length = ((i.width * 4 + 3) / 4 * 4).toNat) (by omega) hh
+                List.length_replicate (fun b hb' => tr_bmp_scanRawRow pitch _ b (by rw [hpe]; omega) hb')
+          · intro _; exact tr_ioErr
+
+theorem tr_bmp_scan (i : Bmp.Info) (hi : BmpHdr i) : Tr false (Bmp.scan i) (fun _ => True) := by
+  unfold Bmp.scan
+  dsimp only
+  obtain ⟨hr0, hr1, hbits, hp1⟩ := bmp_raw_bounds hi
+  apply tr_ite
+  · intro hc
+    exfalso
+    rcases hc with hc | ⟨_, hc⟩
+    · have : inS32 (if i.bpp < 8 then i.width * i.bpp else i.width * ((i.bpp + 7) / 8)) = true := by
+        rw [inS32_iff]; constructor <;> omega
+      simp [this] at hc
+    · have : inS32 ((if i.bpp < 8 then i.width * i.bpp else i.width * ((i.bpp + 7) / 8)) + 7) = true := by
+        rw [inS32_iff]; constructor <;> omega
+      simp [this] at hc
+  · intro _
+    have hp0 : 0 ≤ (if i.bpp < 8 then ((if i.bpp < 8 then i.width * i.bpp else i.width * ((i.bpp + 7) / 8)) + 7) / 8
+                    else (if i.bpp < 8 then i.width * i.bpp else i.width * ((i.bpp + 7) / 8))) := by
+      split <;> omega
+    have hp0u : (if i.bpp < 8 then ((if i.bpp < 8 then i.width * i.bpp else i.width * ((i.bpp + 7) / 8)) + 7) / 8
+                    else (if i.bpp < 8 then i.width * i.bpp else i.width * ((i.bpp + 7) / 8))) ≤ 2147483616 := by
+      split <;> omega
+    apply tr_ite
+    · intro hc
+      exfalso
+      have : inS32 ((if i.bpp < 8 then ((if i.bpp < 8 then i.width * i.bpp else i.width * ((i.bpp + 7) / 8)) + 7) / 8
+                    else (if i.bpp < 8 then i.width * i.bpp else i.width * ((i.bpp + 7) / 8))) + 3) = true := by
+        rw [inS32_iff]; constructor <;> omega
+      simp [this] at hc
+    · intro _
+      apply tr_bmp_scanWith i _ hi (fun h => by have := hp1 h; omega) (by omega)
+      · intro h24
+        simp [h24]
+      · intro h32
+        simp [h32]
+        omega
+
+
+theorem tr_bmp_run (st : Settings) (hconv : ConvOk .bmp st) : Tr false (Bmp.run st) (fun _ => True) := by
+  unfold Bmp.run
+  apply tr_bind tr_bmp_readHeader; intro i hi
+  dsimp only
+  apply tr_bind (tr_checkSettings _ _ _ _ _); intro _ hs
+  obtain ⟨hx0, hy0, hdx, hdy, hxw, hyh⟩ := hs
+  have hdx1 := dim_pos hi.w1 (by simpa using hdx)
+  have hdy1 := dim_pos hi.h1 (by simpa using hdy)
+  simp only [beq_iff_eq] at hdx1 hdy1 hdx hdy hxw hyh ⊢
+  cases he : st.entry with
+  | info => exact tr_pure trivial
+  | scan => exact tr_bmp_scan i hi
+  | view =>
+    dsimp only
+    apply tr_bind (tr_checkImageSize _ _ _ _ _); intro _ hv
+    have hr : Region st.x0 st.y0 (if st.dw = 0 then i.width else st.dw) (if st.dh = 0 then i.height else st.dh) i.width i.height st.vw st.vh :=
+      ⟨hx0, hy0, hdx, hdy, hxw, hyh, hv.1 (by omega), hv.2 (by omega)⟩
+    apply tr_bind (tr_bmp_apply i st _ _ _ hi hconv hr (mk'_shape _ _ _ _)); intro _ _
+    exact tr_pure trivial
+  | image =>
+    dsimp only
+    apply tr_bind (tr_recreateImage st _ _ (by omega) (by omega)); intro d hd
+    have hr : Region st.x0 st.y0 (if st.dw = 0 then i.width else st.dw) (if st.dh = 0 then i.height else st.dh) i.width i.height _ _ :=
+      ⟨hx0, hy0, hdx, hdy, hxw, hyh, le_refl _, le_refl _⟩
+    apply tr_bind (tr_bmp_apply i st _ _ _ hi hconv hr hd); intro _ _
+    exact tr_pure trivial
+  | conv =>
+    dsimp only
+    apply tr_bind (tr_recreateImage st _ _ (by omega) (by omega)); intro d hd
+    have hr : Region st.x0 st.y0 (if st.dw = 0 then i.width else st.dw) (if st.dh = 0 then i.height else st.dh) i.width i.height _ _ :=
+      ⟨hx0, hy0, hdx, hdy, hxw, hyh, le_refl _, le_refl _⟩
+    apply tr_bind (tr_bmp_apply i st _ _ _ hi hconv hr hd); intro _ _
+    exact tr_pure trivial
+
+/-! ### BMP never runs out of fuel -/
+
+theorem nf_taintIf (c : Bool) (w : String) : NF (taintIf c w) := nf_of_nh (nh_taintIf c w)
+
+theorem nf_bmp_readPaletteLoop (four : Bool) : ∀ (n : Nat) (acc : Bmp.Palette), NF (Bmp.readPaletteLoop four n acc)
+  | 0, _ => by unfold Bmp.readPaletteLoop; exact nf_pure _
+  | n + 1, acc => by
+    unfold Bmp.readPaletteLoop
+    apply nf_bind nf_readU8; intro _
+    apply nf_bind nf_readU8; intro _
+    apply nf_bind nf_readU8; intro _
+    apply nf_bind
+    · unfold Bmp.skipByteIf
+      apply nf_ite
+      · apply nf_bind nf_readU8; intro _; exact nf_pure _
+      · exact nf_pure _
+    · intro _; exact nf_bmp_readPaletteLoop four n _
+
+theorem nf_bmp_readPalette (i : Bmp.Info) : NF (Bmp.readPalette i) := by
+  unfold Bmp.readPalette
+  dsimp only
+  apply nf_ite
+  · exact nf_allocErr
+  · apply nf_bind (nf_alloc _); intro _
+    apply nf_bind (nf_bmp_readPaletteLoop _ _ _); intro _
+    exact nf_pure _
+
+theorem nf_bmp_lookupAll (site why : String) (pal : Bmp.Palette) (dst : Dst) (declared : Int) :
+    ∀ (cs acc : List Nat), NF (Bmp.lookupAll site why pal dst declared cs acc)
+  | [], _ => by unfold Bmp.lookupAll; exact nf_pure _
+  | c :: cs, acc => by
+    unfold Bmp.lookupAll
+    split
+    · apply nf_bind (nf_taintIf _ _); intro _
+      exact nf_bmp_lookupAll site why pal dst declared cs _
+    · exact nf_ubAt _ _
+
+theorem nf_bmp_rowsLoop (i : Bmp.Info) (pitch : Int) (st : Settings) (y0 : Int) (site : String)
+    (rowFn : List Nat → M (List Nat × List Nat)) (h : ∀ row, NF (rowFn row)) :
+    ∀ (n : Nat) (y : Int) (row : List Nat) (d : Dest), NF (Bmp.rowsLoop i pitch st y0 site rowFn n y row d)
+  | 0, _, _, _ => by unfold Bmp.rowsLoop; exact nf_pure _
+  | n + 1, y, row, d => by
+    unfold Bmp.rowsLoop
+    apply nf_bind (nf_seekSet _); intro _
+    apply nf_bind (nf_readInto _ _ _); intro _
+    apply nf_bind (h _); intro r
+    apply nf_bind (nf_setRow _ _ _ _); intro _
+    exact nf_bmp_rowsLoop i pitch st y0 site rowFn h n _ _ _
+
+theorem nf_bmp_paletteRowPixels (site : String) (i : Bmp.Info) (st : Settings) (dimx : Int) (pal : Bmp.Palette) (row : List Nat) :
+    NF (Bmp.paletteRowPixels site i st dimx pal row) := by
+  unfold Bmp.paletteRowPixels
+  dsimp only
+  apply nf_ite (nf_ubAt _ _)
+  apply nf_ite (nf_pure _)
+  apply nf_ite (nf_ubAt _ _)
+  exact nf_bmp_lookupAll _ _ _ _ _ _ _
+
+theorem nf_bmp_readPaletteImage (i : Bmp.Info) (pitch : Int) (st : Settings) (dimx dimy : Int) (d : Dest) :
+    NF (Bmp.readPaletteImage i pitch st dimx dimy d) := by
+  unfold Bmp.readPaletteImage
+  apply nf_bind (nf_bmp_readPalette i); intro pal
+  apply nf_bind (nf_alloc _); intro _
+  dsimp only
+  apply nf_ite (nf_ubAt _ _)
+  apply nf_bmp_rowsLoop
+  intro row
+  apply nf_bind (nf_bmp_paletteRowPixels _ _ _ _ _ _); intro _
+  exact nf_pure _
+
+theorem nf_bmp_readMasks (i : Bmp.Info) : NF (Bmp.readMasks i) := by
+  unfold Bmp.readMasks
+  apply nf_ite
+  · apply nf_bind nf_readU32; intro _
+    apply nf_bind nf_readU32; intro _
+    apply nf_bind nf_readU32; intro _
+    dsimp only
+    exact nf_ite nf_ioErr (nf_pure _)
+  · exact nf_ite (nf_pure _) nf_ioErr
+
+theorem nf_bmp_chan15 (site : String) (p : Nat) (m : Bmp.Mask) : NF (Bmp.chan15 site p m) := by
+  unfold Bmp.chan15
+  apply nf_ite (nf_ubAt _ _)
+  dsimp only
+  exact nf_ite (nf_ubAt _ _) (nf_pure _)
+
+theorem nf_bmp_row15 (site : String) (ms : Bmp.Mask × Bmp.Mask × Bmp.Mask) : ∀ (n : Nat) (src acc : List Nat), NF (Bmp.row15 site ms n src acc)
+  | 0, _, _ => by unfold Bmp.row15; exact nf_pure _
+  | n + 1, src, acc => by
+    unfold Bmp.row15
+    dsimp only
+    apply nf_bind (nf_bmp_chan15 _ _ _); intro _
+    apply nf_bind (nf_bmp_chan15 _ _ _); intro _
+    apply nf_bind (nf_bmp_chan15 _ _ _); intro _
+    exact nf_bmp_row15 site ms n _ _
+
+theorem nf_bmp_readData15 (i : Bmp.Info) (pitch : Int) (st : Settings) (dimx dimy : Int) (d : Dest) :
+    NF (Bmp.readData15 i pitch st dimx dimy d) := by
+  unfold Bmp.readData15
+  apply nf_bind (nf_alloc _); intro _
+  apply nf_bind (nf_bmp_readMasks i); intro ms
+  dsimp only
+  apply nf_ite (nf_ubAt _ _)
+  apply nf_bmp_rowsLoop
+  intro row
+  apply nf_bind (nf_alloc _); intro _
+  apply nf_bind (nf_bmp_row15 _ _ _ _ _); intro _
+  apply nf_ite (nf_pure _)
+  exact nf_ite (nf_ubAt _ _) (nf_pure _)
+
+theorem nf_bmp_readData (i : Bmp.Info) (pitch : Int) (st : Settings) (dimx dimy : Int) (bpp : Nat) (d : Dest) :
+    NF (Bmp.readData i pitch st dimx dimy bpp d) := by
+  unfold Bmp.readData
+  apply nf_bind (nf_alloc _); intro _
+  dsimp only
+  apply nf_ite (nf_ubAt _ _)
+  apply nf_bmp_rowsLoop
+  intro row
+  apply nf_bind (nf_sliceRow _ _ _ _ _); intro _
+  exact nf_pure _
+
+theorem nf_bmp_readPaletteImageRle (i : Bmp.Info) (pitch : Int) (st : Settings) (dimx dimy : Int) (d : Dest) :
+    NF (Bmp.readPaletteImageRle i pitch st dimx dimy d) := by
+  unfold Bmp.readPaletteImageRle
+  apply nf_bind (nf_bmp_readPalette i); intro pal
+  apply nf_bind (nf_seekSet _); intro _
+  apply nf_ite nf_allocErr
+  apply nf_bind (nf_alloc _); intro _
+  dsimp only
+  intro s
+  apply nfs_fuelHere_bind
+  intro fuel hf
+  exact nfs_of_nhs (bmp_rleLoop_nhs i pitch st dimx dimy pal _ _ fuel _ d s hf)
+
+theorem nf_bmp_dispatch (i : Bmp.Info) (pitch : Int) (st : Settings) (dimx dimy : Int) (d : Dest) :
+    NF (Bmp.dispatch i pitch st dimx dimy d) := by
+  unfold Bmp.dispatch
+  repeat' (first
+    | exact nf_bmp_readPaletteImage _ _ _ _ _ _ | exact nf_bmp_readPaletteImageRle _ _ _ _ _ _
+    | exact nf_bmp_readData15 _ _ _ _ _ _ | exact nf_bmp_readData _ _ _ _ _ _ _ | exact nf_ioErr
+    | (apply nf_bind (nf_setTaint _); intro _; exact nf_pure _)
+    | apply nf_ite)
+
+theorem nf_bmp_isAllowed (i : Bmp.Info) (st : Settings) : NF (Bmp.isAllowed i st) := by
+  unfold Bmp.isAllowed
+  repeat' (first | exact nf_pure _ | exact nf_ioErr | apply nf_ite)
+
+theorem nf_bmp_apply (i : Bmp.Info) (st : Settings) (dimx dimy : Int) (d : Dest) : NF (Bmp.apply i st dimx dimy d) := by
+  unfold Bmp.apply
+  apply nf_bind (nf_bmp_isAllowed i st); intro _
+  apply nf_ite nf_ioErr
+  dsimp only
+  apply nf_ite (nf_ubAt _ _)
+  exact nf_bmp_dispatch _ _ _ _ _ _
+
+theorem nf_bmp_scanRowsBuf (i : Bmp.Info) (pitch : Int) (rowFn : Bmp.ScanBufs → M Bmp.ScanBufs) (h : ∀ b, NF (rowFn b)) :
+    ∀ (n : Nat) (pos : Int) (b : Bmp.ScanBufs) (acc : List (List Nat)), NF (Bmp.scanRowsBuf i pitch rowFn n pos b acc)
+  | 0, _, _, _ => by unfold Bmp.scanRowsBuf; exact nf_pure _
+  | n + 1, pos, b, acc => by
+    unfold Bmp.scanRowsBuf
+    dsimp only
+    apply nf_bind (nf_seekSet _); intro _
+    apply nf_bind (h b); intro _
+    exact nf_bmp_scanRowsBuf i pitch rowFn h n _ _ _
+
+theorem nf_bmp_scanFinish (i : Bmp.Info) (pitch sl : Int) (buf0 : List Nat) (rowFn : Bmp.ScanBufs → M Bmp.ScanBufs) (h : ∀ b, NF (rowFn b)) :
+    NF (Bmp.scanFinish i pitch sl buf0 rowFn) := by
+  unfold Bmp.scanFinish
+  apply nf_ite (nf_stop _ (by intro w; simp))
+  apply nf_bind (nf_alloc _); intro _
+  apply nf_ite (nf_ubAt _ _)
+  apply nf_ite (nf_stop _ (by intro w; simp))
+  dsimp only
+  apply nf_bind (nf_bmp_scanRowsBuf i pitch rowFn h _ _ _ _); intro _
+  exact nf_pure _
+
+theorem nf_bmp_scanWith (i : Bmp.Info) (pitch : Int) : NF (Bmp.scanWith i pitch) := by
+  unfold Bmp.scanWith
+  dsimp only
+  apply nf_ite
+  · apply nf_bind (nf_bmp_readPalette i); intro pal
+    apply nf_ite nf_allocErr
+    apply nf_bind (nf_alloc _); intro _
+    apply nf_bmp_scanFinish
+    intro b
+    unfold Bmp.scanPaletteRow
+    dsimp only
+    apply nf_ite (nf_ubAt _ _)
+    apply nf_bind (nf_readInto _ _ _); intro _
+    apply nf_bind (nf_bmp_lookupAll _ _ _ _ _ _ _); intro _
+    exact nf_pure _
+  · apply nf_ite
+    · exact nf_ite nf_ioErr nf_ioErr
+    · apply nf_ite
+      · exact nf_ite nf_ioErr nf_ioErr
+      · apply nf_ite
+        · apply nf_ite nf_allocErr
+          apply nf_bind (nf_alloc _); intro _
+          apply nf_bind (nf_bmp_readMasks i); intro ms
+          apply nf_bmp_scanFinish
+          intro b
+          unfold Bmp.scan15Row
+          dsimp only
+          apply nf_ite (nf_ubAt _ _)
+          apply nf_bind (nf_readInto _ _ _); intro _
+          apply nf_bind (nf_bmp_row15 _ _ _ _ _); intro _
+          exact nf_pure _
+        · apply nf_ite
+          · apply nf_bmp_scanFinish
+            intro b
+            unfold Bmp.scanRawRow
+            apply nf_ite (nf_pure _)
+            apply nf_bind (nf_readInto _ _ _); intro _
+            exact nf_pure _
+          · exact nf_ioErr
+
+theorem nf_bmp_scan (i : Bmp.Info) : NF (Bmp.scan i) := by
+  unfold Bmp.scan
+  dsimp only
+  apply nf_ite (nf_ubAt _ _)
+  apply nf_ite (nf_ubAt _ _)
+  exact nf_bmp_scanWith _ _
+
+theorem nf_bmp_run (st : Settings) : NF (Bmp.run st) := by
+  unfold Bmp.run
+  apply nf_bind (nf_of_se (se_bmp_readHeader adm_isErr)); intro i
+  dsimp only
+  apply nf_bind (nf_checkSettings _ _ _ _ _); intro _
+  cases st.entry with
+  | info => exact nf_pure _
+  | scan => exact nf_bmp_scan i
+  | view =>
+    dsimp only
+    apply nf_bind (nf_checkImageSize _ _ _ _ _); intro _
+    apply nf_bind (nf_bmp_apply _ _ _ _ _); intro _
+    exact nf_pure _
+  | image =>
+    dsimp only
+    apply nf_bind (nf_recreateImage _ _ _); intro _
+    apply nf_bind (nf_bmp_apply _ _ _ _ _); intro _
+    exact nf_pure _
+  | conv =>
+    dsimp only
+    apply nf_bind (nf_recreateImage _ _ _); intro _
+    apply nf_bind (nf_bmp_apply _ _ _ _ _); intro _
+    exact nf_pure _
+
 end GilVerif.Lemmas.C11
